@@ -169,6 +169,18 @@ def evaluate(cases, rep, tier):
         esis = [e for e in range(k) if e != lost] + [e for e in reps if e >= k]
         data = CG.rand_data(rt, k * 2)
         top.append((CG.sbd_case(rt, k, 2, 1, 1, rt.choice([0, 1, 100000]), [[e] for e in rt.shuffle(esis)], data), data))
+    # ... and the symbols produced there are the model's (whose tuples are the RFC's for every ISI < 2^32): a
+    # producer and a consumer that both truncate the internal id to 24 bits agree with each other, not with the RFC
+    topw = []
+    for (c, data) in top:
+        k = c.args[0]
+        kp = next(x for x in kps if x >= k)
+        for e in sorted(set([(1 << 24) - 1, (1 << 24) - max(1, kp - k), (1 << 24) - (kp - k) - 1])):
+            if e >= k:
+                topw.append(C.Case("repair_window", [k * 2, 2, 1, 1, 1, 0, e - k, 1] + data))
+    wi, wm, wdis = G.diff_impl_model(topw, PROFILES, "top-of-range repair symbols")
+    for d in wdis[:3]:
+        counter.append({"input": d["input"][:400], "expected": "the repair symbol of the RFC tuple for ISI = ESI + K' - K (model): " + str(d.get("model"))[:80], "observed": str(d.get("impl"))[:80], "profile": d.get("profile"), "oracle": "C15: tuples for every internal symbol id reachable from a 24-bit ESI are the RFC's"})
     for prof in PROFILES:
         for (c, data), r in zip(top, C.run_impl_crashsafe([c for c, _ in top], prof, chunk=1, timeout=600)):
             t = r.split()
